@@ -109,6 +109,11 @@ def mintRun (cfg : Cfg) (p : Mint.Params) : Nat → Int → Mint.Chain → Mint.
   | 0, _, c => c
   | n + 1, h, c => mintRun cfg p n (h + 1) (mintChainBegin cfg p c h)
 
+/-- consecutive blocks with a parameter set per block (a `MsgUpdateParams` may arrive between any two blocks) -/
+def mintRunUpd (cfg : Cfg) : List Mint.Params → Int → Mint.Chain → Mint.Chain
+  | [], _, c => c
+  | p :: rest, h, c => mintRunUpd cfg rest (h + 1) (mintChainBegin cfg p c h)
+
 -- ---------------------------------------------------------------------------------------------
 -- x/bet
 
